@@ -361,7 +361,7 @@ pub fn sanitise(mut p: Program, ctx: usize) -> Option<Program> {
 // ---- generation --------------------------------------------------------------------------------
 
 fn lit_strategy() -> impl Strategy<Value = String> {
-    prop_oneof![
+    crate::oneof![
         4 => "[a-z0-9]{1,6}",
         3 => proptest::collection::vec(proptest::sample::select(vec![
             "a", "Z", "0", ":", "#", "-", "?", ",", "[", "]", "{", "}", "&", "*", "!", "|", ">", "'", "\"", "%", "@", "`", "\\", "é", "中", "😀", "\u{85}",
@@ -372,24 +372,24 @@ fn lit_strategy() -> impl Strategy<Value = String> {
 }
 
 fn blank_strategy() -> impl Strategy<Value = String> {
-    prop_oneof![4 => Just(" ".to_string()), 2 => Just("  ".to_string()), 1 => Just("\t".to_string()), 1 => Just(" \t ".to_string())]
+    crate::oneof![4 => Just(" ".to_string()), 2 => Just("  ".to_string()), 1 => Just("\t".to_string()), 1 => Just(" \t ".to_string())]
 }
 
 fn pad_strategy() -> impl Strategy<Value = String> {
-    prop_oneof![5 => Just(String::new()), 2 => Just(" ".to_string()), 1 => Just("  \t".to_string()), 1 => Just("\t".to_string())]
+    crate::oneof![5 => Just(String::new()), 2 => Just(" ".to_string()), 1 => Just("  \t".to_string()), 1 => Just("\t".to_string())]
 }
 
 fn sep_strategy() -> impl Strategy<Value = Sep> {
-    prop_oneof![
+    crate::oneof![
         3 => Just(Sep::None),
         4 => blank_strategy().prop_map(Sep::Blank),
         4 => (1usize..4, pad_strategy(), pad_strategy(), 0usize..4, pad_strategy()).prop_map(|(breaks, pad, empty_pad, indent_extra, lead)| Sep::Fold { breaks, pad, empty_pad, indent_extra, lead }),
-        2 => (pad_strategy(), prop_oneof![3 => Just(0usize), 1 => 1usize..3], 0usize..4, pad_strategy()).prop_map(|(keep, empties, indent_extra, lead)| Sep::EscBreak { keep, empties, indent_extra, lead }),
+        2 => (pad_strategy(), crate::oneof![3 => Just(0usize), 1 => 1usize..3], 0usize..4, pad_strategy()).prop_map(|(keep, empties, indent_extra, lead)| Sep::EscBreak { keep, empties, indent_extra, lead }),
     ]
 }
 
 fn esc_char() -> impl Strategy<Value = char> {
-    prop_oneof![
+    crate::oneof![
         4 => proptest::sample::select(NAMED.iter().map(|(c, _)| *c).collect::<Vec<_>>()),
         2 => proptest::sample::select(vec!['A', 'é', '中', '😀', '\u{1}', '\u{1f}', '\u{7f}', '\u{ff}', '\u{100}', '\u{ffff}', '\u{10000}', '\u{10ffff}', '\u{d7ff}', '\u{e000}', '\'', '#', ':']),
         1 => any::<char>(),
@@ -397,7 +397,7 @@ fn esc_char() -> impl Strategy<Value = char> {
 }
 
 fn atom_strategy() -> impl Strategy<Value = Atom> {
-    prop_oneof![6 => lit_strategy().prop_map(Atom::Lit), 3 => (esc_char(), 0u8..4).prop_map(|(c, f)| Atom::Esc(c, f)), 1 => Just(Atom::Quote2)]
+    crate::oneof![6 => lit_strategy().prop_map(Atom::Lit), 3 => (esc_char(), 0u8..4).prop_map(|(c, f)| Atom::Esc(c, f)), 1 => Just(Atom::Quote2)]
 }
 
 pub fn program_strategy() -> impl Strategy<Value = (Program, usize)> {
